@@ -210,7 +210,8 @@ MANIFEST = {
             "position equals the defining weighted sum written independently from the momentum "
             "maps and Gauss-Chebyshev-Lobatto weights (tolerance 1e-9 of the weight norm). "
             "deltaToTmunu: for all moments, masses, velocity (symbolic; NRA) T30 and T33 equal the "
-            "directly boosted momentum integrals gamma^2<(pz+vE)(E+v pz)> and gamma^2<(pz+vE)^2>.",
+            "directly boosted momentum integrals gamma^2<(pz+vE)(E+v pz)> and gamma^2<(pz+vE)^2>."
+            " deltaToTmunu is also checked on one EOM object across three velocities (history).",
     "note": "mass profiles concrete inside getDeltas; quadrature exactness itself is C16; "
             "truncation/linearisation diagnostics stubbed out.",
 }
